@@ -33,10 +33,15 @@ Init ==
   /\ cfg \in [ present : [Files -> SUBSET Dirs], nest : Nests,
                search : IF SearchChoice = "all" THEN DirLists \cup {NoList} ELSE {NoList, <<"d1", "d2">>, <<"d2">>},
                env : IF EnvChoice = "all" THEN DirLists \cup {NoList} ELSE {NoList, <<"d1">>},
-               main : Mains ]
+               main : Mains,
+               shadow : SUBSET Dirs ]       \* directories in which the NAME of f1 exists as a directory entry, not as a file
+  /\ cfg.shadow \cap cfg.present["f1"] = {}
+  /\ \A i \in 1..Len(cfg.main) : (cfg.main[i].kind = "abs" /\ cfg.main[i].f = "f1") => cfg.main[i].d \notin cfg.shadow
   /\ phase = "parse" /\ parsed = <<>> /\ stream = <<>> /\ errs = <<>> /\ done = FALSE
 
-(* resolve_file_path *)
+(* resolve_file_path: a directory "contains" an include only if the entry of that name is a FILE (is_file); an entry of    *)
+(* another kind (cfg.shadow: a directory of that name) is passed over, exactly as an absent entry - so `shadow` occurs in  *)
+(* neither ResolveM nor IncludeSem, and the replay must observe that it makes no difference.                               *)
 ResolveM(item) ==
   IF item.kind = "abs" THEN (IF item.d \in cfg.present[item.f] THEN item.d ELSE "none")
   ELSE IF cfg.search # NoList THEN R!FirstHit(cfg.search, item.f, cfg.present)
